@@ -38,9 +38,12 @@ typedef double T;
 
 #include "verif_hooks.hpp"
 
+#include "piqp/utils/optional.hpp"
 #define private public
 #define protected public
+#define class struct
 #include "piqp/piqp.hpp"
+#undef class
 #undef private
 #undef protected
 
@@ -244,6 +247,13 @@ static void dump_data(Solver& S)
     { std::ostringstream os; os << d.n_ub; for (isize i = 0; i < d.n_ub; i++) os << " " << d.x_ub_idx(i); out("x_ub_idx", os.str()); }
     out("x_lb_n", fmtv(d.x_lb_n, d.n_lb)); out("x_ub", fmtv(d.x_ub, d.n_ub));
     out("x_lb_scaling", fmtv(d.x_lb_scaling, d.n_lb)); out("x_ub_scaling", fmtv(d.x_ub_scaling, d.n_ub));
+#if PRECOND == 0
+    auto& pc = S.m_preconditioner;
+    out("pc.c", fmt(pc.c)); out("pc.c_inv", fmt(pc.c_inv));
+    out("pc.delta", fmtv(pc.delta)); out("pc.delta_inv", fmtv(pc.delta_inv));
+    out("pc.delta_lb", fmtv(pc.delta_lb)); out("pc.delta_lb_inv", fmtv(pc.delta_lb_inv));
+    out("pc.delta_ub", fmtv(pc.delta_ub)); out("pc.delta_ub_inv", fmtv(pc.delta_ub_inv));
+#endif
 }
 
 static void dump_result(Solver& S, Status st)
